@@ -98,6 +98,12 @@ where
     loop {
       // Poll the stream until exhausted
       let this = self.as_mut().project();
+      // nobody listens any more (e.g. after `take`): stop polling the stream
+      // and retire the task.
+      if this.observer.as_ref().map_or(true, |o| o.is_finished()) {
+        this.observer.take();
+        break Poll::Ready(NormalReturn::new(()));
+      }
       let next = ready!(this.stream.poll_next(cx));
 
       match next {
